@@ -275,6 +275,15 @@ class Runner:
             rec['model_line'] = line
         else:
             model_out = real_out if op['op'] == 'reinit' else 'ok'
+        if op['op'] == 'import' and getattr(self, 'last_import', None) is not None and not real_out.startswith('raised'):
+            li, self.last_import = self.last_import, None
+            if all(isinstance(x, int) and x >= 0 for x in li['stream']) and all(isinstance(x, int) and x >= 0 for cl in li['calls'] for x in cl):
+                m_calls = self._ask(f'store calls {rc.name} {li["budget"]} {show_nats(li["stream"])}')
+                r_calls = '|'.join(show_nats(cl) for cl in li['calls']) if li['calls'] else '-'
+                self.res.bump('import_calls_compared')
+                self.res.bump(f'import_calls.{min(len(li["calls"]), 4)}{"+" if len(li["calls"]) > 4 else ""}')
+                if m_calls != r_calls:
+                    self.res.diffs.append((self.step, 'calls', m_calls, f'{r_calls} (objects arrived in the order {show_nats(li["stream"])}, budget {li["budget"]})', 'import'))
         rec['real_out'] = real_out
         self.res.trace.append(rec)
         if model_out != real_out:
@@ -418,9 +427,42 @@ class Runner:
                 it = {'list': list, 'tuple': tuple, 'set': set, 'gen': (lambda ks: (k for k in ks))}[op.get('iter', 'list')](keys)
                 calls = []
                 cb = (lambda action, value: calls.append(action)) if op.get('callback') else None
-                mapping = c.import_objects(it, src.c, compress=op['compress'],
-                                           target_memory_bytes=op.get('budget', 104857600), callback=cb,
-                                           **({'do_fsync': False} if op.get('do_fsync') is False else {}))
+                # observe the order in which the source hands the objects over and the direct-to-pack calls made for them
+                from contextlib import contextmanager  # pylint: disable=import-outside-toplevel
+
+                stream_order: list = []
+                made_calls: list = []
+                orig_stream = src.c.get_objects_stream_and_meta
+                orig_bulk, orig_one = c.add_objects_to_pack, c.add_streamed_object_to_pack
+
+                @contextmanager
+                def rec_stream(hashkeys, skip_if_missing=True):
+                    with orig_stream(hashkeys, skip_if_missing=skip_if_missing) as trip:
+                        def gen():
+                            for hk_, st_, meta_ in trip:
+                                stream_order.append(src.cid(hk_))
+                                yield hk_, st_, meta_
+                        yield gen()
+
+                def rec_bulk(content_list, *a, **k):
+                    made_calls.append([pool.cid_of_bytes(b) for b in content_list])
+                    return orig_bulk(content_list, *a, **k)
+
+                def rec_one(stream, *a, **k):
+                    made_calls.append([stream_order[-1] if stream_order else -1])
+                    return orig_one(stream, *a, **k)
+
+                src.c.get_objects_stream_and_meta = rec_stream
+                c.add_objects_to_pack, c.add_streamed_object_to_pack = rec_bulk, rec_one
+                try:
+                    mapping = c.import_objects(it, src.c, compress=op['compress'],
+                                               target_memory_bytes=op.get('budget', 104857600), callback=cb,
+                                               **({'do_fsync': False} if op.get('do_fsync') is False else {}))
+                finally:
+                    del src.c.get_objects_stream_and_meta
+                    del c.add_objects_to_pack
+                    del c.add_streamed_object_to_pack
+                self.last_import = {'stream': stream_order, 'calls': made_calls, 'budget': op.get('budget', 104857600)}
                 wanted = {k for k in op['ks'] if isinstance(k, int) and k in src.expected}
                 rc.expected.update(wanted)
                 out = []
